@@ -307,10 +307,11 @@ pub fn judge_subgroup_cover(ctx: &mut Ctx, base: &MSym, rng: &mut Rng, attempts:
         }).filter(|&l| l != 0).collect::<Word>())
     };
     for _ in 0..attempts {
-        let nw = 1 + rng.below(2);
+        let nw = 1 + rng.below(3);
+        let long = rng.chance(1, 2);
         let words: Vec<Word> = (0..nw)
             .map(|_| {
-                let len = 1 + rng.below(3);
+                let len = if long { 5 + rng.below(22) } else { 1 + rng.below(3) };
                 reduce(&(0..len).map(|_| { let g = rng.range(1, lg.ngens as i64); if rng.chance(1, 2) { g } else { -g } }).collect::<Word>())
             })
             .filter(|w| !w.is_empty())
@@ -435,7 +436,7 @@ pub fn run(cfg: &Cfg) -> Report {
             }
             judge_universal(ctx, &b, o);
             let mut rng = Rng::stream(seed, 0x05_8000 + k as u64);
-            judge_subgroup_cover(ctx, &b, &mut rng, 6);
+            judge_subgroup_cover(ctx, &b, &mut rng, cfg.tier.pick(60, 600));
         }
     });
     report.absorb(ctx);
